@@ -34,6 +34,9 @@ Shape(sn) ==
     [] sn = "rel" -> Rel(Uri(<<Seg("r")>>), <<Xfer("get", C0)>>)
     [] sn = "xfer" -> Xfer("get", C0)
     [] sn = "litnum" -> LitNum("200") [] sn = "litstr" -> LitStr("a/b") [] sn = "litstatus" -> LitStatus("4XX")
+    \* numbers outside the domain of HTTP statuses (a located error where a status is wanted, a number elsewhere)
+    [] sn = "litnum0" -> LitNum("0") [] sn = "litnum42" -> LitNum("42") [] sn = "litnum99" -> LitNum("99") [] sn = "litnum600" -> LitNum("600")
+    [] sn = "litnum100" -> LitNum("100") [] sn = "litnum599" -> LitNum("599")
     [] sn = "rec" -> Rec("x", Obj(<<Prop("k", Arr(Var("x")))>>))
 
 Pos(pn, h) ==
@@ -370,7 +373,7 @@ AnnShapeNames == {"a-obj", "a-num", "a-str", "a-props", "a-arr", "a-sum", "a-lin
 AnnHole(ind, sh, use) ==
   LET h == CASE ind = "direct" -> sh
              [] ind \in {"let", "letann", "implet"} -> Var("h")
-             [] ind \in {"idfn", "impfn"} -> App(Var("id"), <<sh>>)
+             [] ind \in {"idfn", "idfnann", "impfn"} -> App(Var("id"), <<sh>>)
   IN IF use = "none" \/ ind = "direct" THEN h          \* written in place there is no separate use site
      ELSE IF use = "title" THEN Ann(h, h.ann \o <<AnnE("title", "use t", "s", "inline")>>)
      ELSE Ann(h, h.ann \o <<AnnE("description", "use d", "s", "inline")>>)
@@ -378,6 +381,8 @@ AnnHelpers(ind, sh) ==
   CASE ind = "let" -> <<Let("h", sh)>>
     [] ind = "letann" -> <<Ann(Let("h", sh), <<AnnE("description", "decl d", "s", "line")>>)>>
     [] ind = "idfn" -> <<Decl("id", <<"x">>, Var("x"))>>
+    \* the function declaration carries annotations of its own: the application site wins over them
+    [] ind = "idfnann" -> <<Ann(Decl("id", <<"x">>, Var("x")), <<AnnE("description", "fn d", "s", "line"), AnnE("title", "fn t", "s", "line")>>)>>
     [] OTHER -> <<>>
 AnnPos(pn, h) ==
   CASE pn = "body" -> <<Body(h)>>
@@ -389,7 +394,7 @@ AnnPos(pn, h) ==
                           <<AnnE("summary", "the op", "s", "line"), AnnE("operationId", "theOp", "s", "line"), AnnE("tags", "t1,t2", "l", "line")>>),
                         Res(Rel(Root, <<Var("op")>>))>>
 AnnPositions == {"body", "proprhs", "arritem", "range", "domain", "xfer"}
-AnnInds == {"direct", "let", "letann", "idfn", "implet", "impfn"}
+AnnInds == {"direct", "let", "letann", "idfn", "idfnann", "implet", "impfn"}
 AnnUses == {"none", "title", "desc"}
 
 AnnProg(pn, sn, ind, use) ==
@@ -416,7 +421,8 @@ AnnotsLabelled == {[l |-> <<pn, sn, ind, IF ind = "direct" THEN "none" ELSE use>
 AllPositions == {"body", "range", "domain", "headers", "media", "status", "reluri", "res", "xferlist", "proprhs", "objitem",
                  "arritem", "join", "any", "sum", "rangeop", "unary", "urivar", "apparg", "recbody", "refdecl", "concat"}
 AllShapes == {"num", "str", "uriprim", "obj", "obj0", "arr", "prop", "propreq", "unopt", "join", "any", "sum", "sumobj", "sumuri", "sumrel", "cnt", "cnt0",
-              "cntfull", "ranges", "urit", "urivar", "rel", "xfer", "litnum", "litstr", "litstatus", "rec"}
+              "cntfull", "ranges", "urit", "urivar", "rel", "xfer", "litnum", "litstr", "litstatus", "rec",
+              "litnum0", "litnum42", "litnum99", "litnum600", "litnum100", "litnum599"}
 AllIndirections == {"direct", "let", "reflet", "idfn", "implet", "impfn"}
 QuickIndirections == {"direct", "let", "idfn", "fnlocal", "fnimp"}
 EveryIndirection == AllIndirections \cup {"fnlocal", "fnimp"}
